@@ -41,7 +41,8 @@ func NewSession(c *Client, state SMState) (*Session, error) {
 	}
 
 	if s.err != nil {
-		return nil, NewConnError(s.err, true)
+		// Unreadable stream features (a proxy's error page, a cut connection): worth another attempt
+		return nil, NewConnError(s.err, false)
 	}
 
 	if !c.transport.IsSecure() {
